@@ -44,7 +44,7 @@ fn c19_poll_period_and_demand() {
 // @props C19
 // @tier thorough
 // @class attempt
-// @timeout 3600
+// @timeout 1200
 // @mem 14
 // @units PollMap::{new, add, next, remove}, Poll::{is_ready, next}, Smallest::observe
 // @bounds two registered polls whose deadlines are ARBITRARY instants (or absent), queried at an arbitrary instant: Now <=> one of them is due, and the poll returned is a due one; otherwise NotBefore(t) with t = the EARLIEST deadline and t > now (the caller's sleep cannot return immediately: no spinning); no deadline at all / no polls: None.  (The map is built with fixed periods so that its tree shape is concrete; the deadlines are then overwritten with symbolic values.)
@@ -92,7 +92,7 @@ fn c19_pollmap_next() {
 // @props C19
 // @tier thorough
 // @class attempt
-// @timeout 3600
+// @timeout 1200
 // @mem 14
 // @units PollMap::{add, complete, demand, remove, next}, Poll::reset_next
 // @bounds one registered poll with an arbitrary period (1 ms..1 h): completing it at an arbitrary instant moves its deadline to completion + period; demanding it makes it due at once; removing it leaves nothing to schedule
